@@ -317,6 +317,9 @@ func run(c *core.Ctx) error {
 		jobBehs = append(jobBehs, misuse[i:i+1])
 	}
 	pool := c.NewPool(c.Workers)
+	if err := mutexStressStage(c, pool); err != nil {
+		return err
+	}
 	okN, steps, blocks, wakes := 0, 0, 0, 0
 	perPrim := map[string]int{}
 	for round := 0; len(jobs) > 0; round++ {
